@@ -1,4 +1,8 @@
 open Drv_common
+module M = struct
+  include Drv_common.M
+  include Price
+end
 (* ------------------------------------------------------------------ oracle / oraclerisk (C09) *)
 (* builtin ProgramErrors are negative codes in the model: printed PE<n> like util::err_tok *)
 let oerr_s (e : M.err) : string =
@@ -29,7 +33,7 @@ let parse_ocase (t : toks) : ocase =
   let over = nb t in let over_age = nz t in
   let now = nz t in let slot = nz t in
   let n = ni t in
-  let ais = List.init n (fun _ ->
+  let ais = Stdlib.List.init n (fun _ ->
     let key = nz t in let owner = nz t in let kind = ni t in
     let f = Array.init 7 (fun _ -> nz t) in
     { M.oa_key = key; oa_owner = owner; oa_body = parse_body kind f }) in
@@ -39,7 +43,7 @@ let parse_ocase (t : toks) : ocase =
   let vn = { M.vn_loader = (match loader with 0 -> M.VLOk | 1 -> M.VLInvalid | _ -> M.VLPanic);
              vn_last = last; vn_supplies = M.px_scale_supplies (M.of_int avail) supply dec; vn_cum = cum } in
   let sk = { M.sk_supply = (if mint_ok then M.Ok lst_supply else M.Err M.EPanic);
-             sk_stake = (match stake_kind with 0 -> M.Ok stake | 1 -> M.Err (M.E M.pE_BORSH_IO) | _ -> M.Err M.EPanic) } in
+             sk_stake = (match stake_kind with 0 -> M.Ok stake | 1 -> M.Err (M.E M.coq_PE_BORSH_IO) | _ -> M.Err M.EPanic) } in
   { cfg = { M.oc_setup = setup; oc_key0 = k0; oc_key1 = k1; oc_key2 = k2; oc_max_age = max_age;
             oc_max_conf = max_conf; oc_fixed_price = fixed };
     over; over_age; ck = { M.ck_now = now; ck_slot = slot }; ais; vn; sk }
@@ -52,7 +56,7 @@ let suite_oracle (line : string) : string =
   let t = toks_of_line line in
   let c = parse_ocase t in
   let m = ni t in
-  let omcs = List.init m (fun _ -> nz t) in
+  let omcs = Stdlib.List.init m (fun _ -> nz t) in
   match load c c.ais with
   | M.Err e -> oerr_s e
   | M.Ok f ->
@@ -64,7 +68,7 @@ let suite_oracle (line : string) : string =
         q M.TimeWeighted None; q M.TimeWeighted (Some M.PLow); q M.TimeWeighted (Some M.PHigh);
         q M.RealTime None; q M.RealTime (Some M.PLow); q M.RealTime (Some M.PHigh);
         ";"; pc M.TimeWeighted; ";"; pc M.RealTime ] in
-    String.concat " | " (head :: List.map seg omcs)
+    String.concat " | " (head :: Stdlib.List.map seg omcs)
 
 let rec firstn n l = if n <= 0 then [] else match l with [] -> [] | x :: r -> x :: firstn (n - 1) r
 
@@ -75,7 +79,7 @@ let suite_oraclerisk (line : string) : string =
   let setup = Z.to_int (big_of_z c.cfg.M.oc_setup) in
   (* get_remaining_accounts_per_bank - 1: Fixed 0, staked 3, venue 2, others 1 *)
   let expected = (match setup with 8 -> 0 | 5 -> 3 | 6 | 7 | 9 | 10 | 11 | 12 -> 2 | _ -> 1) in
-  if List.length c.ais < expected then String.concat " | " ["NEW:E6051"; "NEW:E6051"; "NEW:E6051"]
+  if Stdlib.List.length c.ais < expected then String.concat " | " ["NEW:E6051"; "NEW:E6051"; "NEW:E6051"]
   else
     let pf = load c (firstn expected c.ais) in
     let one req =
